@@ -333,7 +333,8 @@ class GeneralSurrogate:
         TFit = np.atleast_2d(T).T
         xTrain = self._createInput([xFit, 1/TFit], [data['singleX'], data['singleT']])
 
-        dnkj, dtracer = data['dnkj'], data['dtracer']
+        #Training data is stored as lists when loaded from json
+        dnkj, dtracer = np.array(data['dnkj']), np.array(data['dtracer'])
         if self.numElements == 2:
             dnkjFit = np.atleast_2d(dnkj).T
         else:
